@@ -285,6 +285,9 @@ double SQuIDS::GetExpectationValue(SU_vector op, unsigned int nrh, unsigned int 
 
 double SQuIDS::GetExpectationValue(SU_vector op, unsigned int nrh, unsigned int i, double scale, std::vector<bool>& avr) const {
   SU_vector h0=H0(x[i],nrh);
+  //the table prepared from h0 is applied by op's own kernel, which reads as many entries as op's dimension asks for
+  if(op.Dim()!=h0.Dim())
+    throw std::runtime_error("SQUIDS::GetExpectationValue : Non-matching dimensions of the operator and H0");
   std::unique_ptr<double[]> evol_buf(new double[h0.GetEvolveBufferSize()]);
   h0.PrepareEvolve(evol_buf.get(),t-t_ini,scale,avr);
   return state[i].rho[nrh]*op.Evolve(evol_buf.get());
@@ -369,6 +372,9 @@ double SQuIDS::GetExpectationValueD(const SU_vector& op, unsigned int nrh, doubl
   buf.state =f1*state[xid].rho[nrh];
   buf.state+=f2*state[xid2].rho[nrh];
   //compute the evolved operator
+  //(the table prepared from h0 is applied by op's own kernel, which reads as many entries as op's dimension asks for)
+  if(op.Dim()!=h0.Dim())
+    throw std::runtime_error("SQUIDS::GetExpectationValueD : Non-matching dimensions of the operator and H0");
   std::unique_ptr<double[]> evol_buf(new double[h0.GetEvolveBufferSize()]);
   h0.PrepareEvolve(evol_buf.get(),t-t_ini,scale,avr);
   buf.op=op.Evolve(evol_buf.get());
